@@ -496,7 +496,7 @@ func (p Prop) exec(c *Case) (*result, error) {
 		bodies = append(bodies, func() { rs.client(t, e.DB) })
 	}
 	res := &result{fired: map[int]int64{}}
-	res.sres = s.Run(names, bodies, 20*time.Second)
+	res.sres = s.Run(names, bodies, watchdog())
 	unhook()
 	res.panics = rs.panics
 	res.wrote = rs.wrote
@@ -651,6 +651,12 @@ func (p Prop) Run(ci interface{}, focus *core.Violation) *core.Outcome {
 				b = "bounded"
 			}
 			report("deadlock", b+"|"+stuckKey(sr.Stuck), fmt.Sprintf("every unfinished task waits: %v", sr.Stuck))
+			return o
+		}
+		if sr.Reason == "watchdog" && len(sr.Blocked) > 0 {
+			// the scheduler parks tasks with no lock held: a goroutine that sits on a real
+			// lock or channel inside gorm when the watchdog fires will never get it
+			report("deadlock", "blocked_in_gorm|"+sr.Blocked[0], fmt.Sprintf("the run stopped making progress; blocked inside gorm, not parked by the scheduler: %v", sr.Blocked))
 			return o
 		}
 		o.Trouble = "run aborted: " + sr.Reason + " " + strings.Join(sr.Stuck, "; ")
@@ -965,3 +971,12 @@ func firstWords(s string, n int) string {
 }
 
 var _ = errors.New
+
+// watchdog is the wall-clock limit of one scheduled run (a run takes
+// milliseconds; race builds are an order of magnitude slower).
+func watchdog() time.Duration {
+	if core.RaceBuild {
+		return 20 * time.Second
+	}
+	return 8 * time.Second
+}
